@@ -389,7 +389,8 @@ pub fn scenario(seed: u64, stepping: Option<Stepping>, long: bool) -> Made {
     let svcs: Vec<Svc> = (0..3)
         .map(|i| {
             let mut s = Svc::new(TYPES[i % 2], &format!("inst{i}"), &format!("srvhost{i}.local"), [10, 0, 0, 30 + i as u8]);
-            s.ttl_ptr = *rng.pick(&[10u32, 120, 4500]);
+            // (a PTR with TTL 1 lives for a second: the crate treats that whole second as "about to expire")
+            s.ttl_ptr = *rng.pick(&[1u32, 2, 10, 120, 4500, 10, 120, 4500]);
             s.ttl_srv = *rng.pick(&[10u32, 120]);
             s.ttl_addr = s.ttl_srv;
             s.ttl_txt = s.ttl_ptr;
